@@ -51,6 +51,10 @@ def run(tier, seed, pid=PID):
         for k in range(njump):
             c, m = daemon.random_script(rnd, ntasks=3, horizon=14, steps=rnd.choice([25, 40]), maxsims=(0, 0, 0, 2), peers=(1000,), jumps=True)
             rs.append((c, m, None))
+    # more jobs under supervision at a time than one pool of child watchers holds (256)
+    for k in range(3 if tier == 'thorough' else 1):
+        c, m = daemon.many_children_script(rnd, n=rnd.choice([270, 300]))
+        rs.append((c, m, None))
     allscripts = scripts + rs
     recs = daemon.run_many(drv, [(c, m) for c, m, _ in allscripts], wd)
     # the schedule (C04) and the limits (C12: the limit is the task's own) hold across a restart too.  The adds of a script go to a first daemon life, which saves the queue and
